@@ -107,10 +107,12 @@ pub fn worker_main(args: &[String]) -> i32 {
     install_silent_hook();
     let cur = format!("{out}.current");
     let ctx = Ctx { tier, chunk, nchunks, seed, current_case_path: Some(cur.clone()) };
-    let res = if chunk == nchunks {
-        run_corpus(&spec, &ctx)
-    } else {
-        (spec.run_chunk)(&ctx)
+    let res = match std::panic::catch_unwind(std::panic::AssertUnwindSafe(|| if chunk == nchunks { run_corpus(&spec, &ctx) } else { (spec.run_chunk)(&ctx) })) {
+        Ok(r) => r,
+        Err(p) => {
+            eprintln!("HARNESS PANIC in worker: {}", payload_str(&*p));
+            return 101;
+        }
     };
     std::fs::write(out, serde_json::to_vec(&res).unwrap()).unwrap();
     let _ = std::fs::remove_file(cur);
